@@ -384,12 +384,14 @@ Definition wire_opt (c : cfg) (w : wstate) (ede : option eopt) : opt :=
          (own_opts c w ++ (if w_ka w then [keepalive_opt] else []) ++ (match ede with Some e => [e] | None => [] end)).
 
 (* ResponseWriter.WriteWire on a body that decodes to [d] (no OPT) and is [blen] bytes long;
-   [hasdnssec] / [ede] are the caller's WireInfo.  None = ErrWireFallback. *)
-Definition write_wire (tr : transport) (c : cfg) (w : wstate) (d : msg) (hasdnssec : bool) (ede : option eopt)
+   [iad] / [hasdnssec] / [ede] are the caller's WireInfo (AuthenticatedData, HasDNSSEC, the EDE).
+   None = ErrWireFallback.  The AD bit of the body is cleared only when the caller's WireInfo SAYS
+   it is set ([w.noad && info.AuthenticatedData]): the writer never reads the bit off the body. *)
+Definition write_wire (tr : transport) (c : cfg) (w : wstate) (d : msg) (iad hasdnssec : bool) (ede : option eopt)
            (blen : N) : option msg :=
   if negb (w_do w) && hasdnssec then None
   else
-    let d1 := if w_noad w && h_ad (m_hdr d) then with_hdr d (set_ad (m_hdr d) false) else d in
+    let d1 := if w_noad w && iad then with_hdr d (set_ad (m_hdr d) false) else d in
     if w_noedns w then
       if is_udp tr && (w_size w <? blen) then None else Some d1
     else
@@ -401,7 +403,8 @@ Definition write_wire (tr : transport) (c : cfg) (w : wstate) (d : msg) (hasdnss
    whole message through WriteMsg on ErrWireFallback (what the cache does) *)
 Definition wire_then_msg (tr : transport) (c : cfg) (hasdnssec : bool) (ede : option eopt) (blen clen : N)
            (w : wstate) (d : msg) : msg :=
-  match write_wire tr c w (clear_opt d) hasdnssec ede blen with
+  (* the scripted handler's WireInfo is truthful: AuthenticatedData = the AD bit of its message *)
+  match write_wire tr c w (clear_opt d) (h_ad (m_hdr d)) hasdnssec ede blen with
   | Some r => norm r
   | None => shape_reply tr c w d clen
   end.
@@ -487,3 +490,20 @@ Definition serve_msg_c (nt : ntab) (tr : transport) (c : cfg) (q : msg) (strict 
 Definition serve_raw_c (nt : ntab) (tr : transport) (c : cfg) (h : T_Header) (body : option msg) (strict : bool)
            (dn : option msg) : option msg :=
   serve_raw_gen (shape_reply_c nt tr c) tr c h body strict dn.
+
+(* ---- the cache's reply producers (middleware/cache): header and WireInfo.AuthenticatedData ---- *)
+(* wire.ApplyReply on a stored header: ID, QR, opcode, RD, CD from the request, AA cleared; TC, RA,
+   Z, AD and the rcode stay as stored.  (CacheEntry.ToMsg arrives at the same header through
+   dns.Msg.SetReply for an opcode-0 request: the only kind the edns layer lets through.) *)
+Definition apply_reply (st q : hdr) : hdr :=
+  mk_hdr (h_id q) true (h_opcode q) false (h_tc st) (h_rd q) (h_ra st) (h_z st) (h_ad st) (h_cd q) (h_rcode st).
+(* the merged validation verdict: every hop stored with AD, and the client did not set CD *)
+Definition hit_ad (hops : list hdr) (q : hdr) : bool := forallb h_ad hops && negb (h_cd q).
+(* CacheEntry.serveWireInto / serveWireIntoRequest (one stored header: the exact entry's) and
+   composeWireChase (the alias entry's stored header first, then every hop's): the header of the
+   body handed to the writer chain and the WireInfo.AuthenticatedData that goes with it *)
+Definition hit_wire (hops : list hdr) (q : hdr) : option (hdr * bool) :=
+  match hops with
+  | [] => None
+  | st :: _ => let ad := hit_ad hops q in Some (set_ad (apply_reply st q) ad, ad)
+  end.
